@@ -174,6 +174,14 @@ def generate(rng, tier):
                        {'t': 'np_asarray', 's': rng.randrange(nst),
                         'dtype': rng.choice([None, 'float32', 'complex128',
                                              'float64']), 'fill': 'zero'})
+        for _ in range(rng.randint(0, 2)):
+            # conversion for NumPy, then a write through one PART of the
+            # element (x[k] *= 2 is arithmetic on the part's own space), then
+            # conversion again (seed e17: whatever the container remembers
+            # from the first conversion is stale)
+            ops.insert(rng.randrange(len(ops)),
+                       {'t': 'part_write', 's': rng.randrange(nst),
+                        'k': rng.randrange(3), 'fill': 'zero'})
     return {'space': sp, 'nst': nst, 'ops': ops,
             'garbage': rng.choice(GARBAGE[:4]),
             'global_seed': rng.getrandbits(31), 'xseed': rng.getrandbits(32)}
@@ -869,6 +877,30 @@ def _execute_power(plan, ctx, base):
                                     op['name'], got, op['name'], want))
             ctx.step()
             ctx.covered('legacy.' + op['name'], 'power', sp['dtype'])
+            continue
+        if op['t'] == 'part_write':
+            x = xs[op['s']]
+            if len(x.parts) == 0:
+                continue
+            np.asarray(x)
+            with np.errstate(all='ignore'):
+                p_ = x.parts[op['k'] % len(x.parts)]
+                a_ = elem_arrays(p_)[0]       # the array the part wraps
+                # (magnitudes are kept: float16 products overflow otherwise)
+                if a_.dtype.kind in 'fci':
+                    np.negative(a_, out=a_)
+                else:
+                    np.invert(a_, out=a_)
+            want = np.stack([np.asarray(q.asarray()) for q in x.parts])
+            got = np.asarray(x)
+            nat_ = lambda a_: a_.astype(a_.dtype.newbyteorder('='))
+            if got.shape != want.shape or \
+                    _bits(nat_(got)) != _bits(nat_(want)):
+                raise Violation('C17', 'C17/value/power/np.asarray-after-part-write',
+                                'np.asarray(X) after a write into the array of part k differs '
+                                'from the stacked parts')
+            ctx.fired('power-part-written-between-conversions')
+            ctx.step()
             continue
         if op['t'] == 'np_asarray':
             x = xs[op['s']]
